@@ -398,6 +398,8 @@ func init() {
 					ow = append(ow, wParams{Dir: dir, Binary: bin, Tree: "one:T:400000", Overwrite: true, DstPre: "c08:shorter:200000@70000", HashStep: 65536},
 						wParams{Dir: dir, Binary: bin, Tree: "small3", Overwrite: true, DstPre: "c08:longer:9@5"},
 						wParams{Dir: dir, Binary: bin, Tree: "small3", Overwrite: true, DstPre: "c08:same@-1"},
+						wParams{Dir: dir, Binary: bin, Tree: "small3", Overwrite: true, DstPre: "c08:longer:9@-1"},   // the old file begins with the whole new one
+						wParams{Dir: dir, Binary: bin, Tree: "one:T:0", Overwrite: true, DstPre: "c08:longer:30@-1"}, // an empty file over a non-empty one
 						wParams{Dir: dir, Binary: bin, Tree: "dir", Directory: true, Overwrite: true, DstPre: "c08:shorter:3@-1"})
 				}
 			}
